@@ -40,9 +40,16 @@ def strkeys(hostile=False):
     return st.sampled_from(HOSTILE_KEYS + IDENT_KEYS[:3]) if hostile else st.sampled_from(IDENT_KEYS)
 
 
+LABEL_KEYS = [False]  # switched on by the engines that stop at inferred types (a str-subclass key breaks stub syntax: C12's listed finding)
+
+
 def strdict(sub, max_size=5, hostile=False):
+    def key(name_and_flag):
+        name, as_label = name_and_flag
+        # ["labelkey", text]: an instance of a str subclass whose __str__ differs from the key it is
+        return ["labelkey", name] if as_label and LABEL_KEYS[0] else lit(name)
     return st.lists(
-        st.tuples(strkeys(hostile).map(lit), sub).map(list), max_size=max_size, unique_by=lambda kv: kv[0][1]
+        st.tuples(st.tuples(strkeys(hostile), st.sampled_from([False] * 7 + [True])).map(key), sub).map(list), max_size=max_size, unique_by=lambda kv: kv[0][1]
     ).map(lambda l: ["dict", l])
 
 
@@ -114,6 +121,8 @@ def build(spec):
     k = spec[0]
     if k == "lit":
         return spec[1]
+    if k == "labelkey":
+        return fxh.LabelStr(spec[1])
     if k in ("inst", "cls"):
         if spec[1] in ("int", "str"):
             return {"int": int, "str": str}[spec[1]]
